@@ -533,6 +533,17 @@ impl TemplatedFileInner {
     }
 }
 
+#[cfg(sqruff_verif)]
+impl TemplatedFileInner {
+    /// Verification hook: read access to the raw slices as (raw text, slice type, source index).
+    pub fn verif_raw_sliced(&self) -> Vec<(String, String, usize)> {
+        self.raw_sliced
+            .iter()
+            .map(|r| (r.raw.clone(), r.slice_type.clone(), r.source_idx))
+            .collect()
+    }
+}
+
 /// Find the indices of all newlines in a string.
 pub fn iter_indices_of_newlines(raw_str: &str) -> impl Iterator<Item = usize> + '_ {
     // TODO: This may be optimize-able by not doing it all up front.
